@@ -87,6 +87,10 @@ func c04Record(c *seedCase) {
 		cov.Class("m-over-hmac-block")
 		nt = true
 	}
+	if n := len(ref.NFKD(m)); n == 128 || n == 64 || n == 256 {
+		cov.Class(fmt.Sprintf("m-nfkd-exactly-%d-bytes", n))
+		nt = true
+	}
 	if len(m) > 1<<15 || len(pw) > 1<<15 {
 		cov.Class("huge")
 	}
@@ -119,7 +123,7 @@ func c04Record(c *seedCase) {
 
 // seedPair draws (mnemonic, passphrase).
 func seedPair(rt *rapid.T) (string, string, string) {
-	shape := rapid.SampledFrom([]string{"ustring", "ustring", "valid-mnemonic", "damaged-mnemonic", "long", "empty-m", "mark-first", "huge"}).Draw(rt, "shape")
+	shape := rapid.SampledFrom([]string{"ustring", "ustring", "valid-mnemonic", "damaged-mnemonic", "long", "empty-m", "mark-first", "huge", "block-boundary", "low-runes"}).Draw(rt, "shape")
 	var m, p string
 	p = rapid.OneOf(gen.UString(6), rapid.Just(""), rapid.Just("TREZOR"), rapid.StringN(0, 20, -1)).Draw(rt, "p")
 	switch shape {
@@ -142,6 +146,24 @@ func seedPair(rt *rapid.T) (string, string, string) {
 		}
 	case "empty-m":
 		m = ""
+	case "block-boundary":
+		// the NFKD form of the mnemonic (the HMAC key) is exactly at, one below or one above the
+		// SHA-512 block (128), half a block, or two blocks; likewise for "mnemonic"+passphrase now and then
+		target := rapid.SampledFrom([]int{127, 128, 129, 63, 64, 65, 111, 112, 255, 256, 257}).Draw(rt, "nfkd-bytes")
+		base := rapid.OneOf(gen.UString(4), rapid.Just(""), gen.LowString()).Draw(rt, "base")
+		for len(ref.NFKD(base)) > target {
+			r := []rune(base)
+			base = string(r[:len(r)/2])
+		}
+		m = gen.PadToNFKDLen(base, target)
+		if rapid.Bool().Draw(rt, "pad-p") {
+			p = gen.PadToNFKDLen(p, rapid.SampledFrom([]int{119, 120, 121, 128}).Draw(rt, "p-bytes"))
+		}
+	case "low-runes":
+		m = gen.LowString().Draw(rt, "m")
+		if rapid.Bool().Draw(rt, "low-p") {
+			p = gen.LowString().Draw(rt, "lp")
+		}
 	case "mark-first":
 		m = gen.UString(5).Draw(rt, "m")
 		p = string(rapid.SampledFrom([]rune{0x0301, 0x0323, 0x3099, 0x0345, 0x05bc, 0x0307}).Draw(rt, "mark")) + p
